@@ -6,7 +6,7 @@ model; canonical observations (trigger ids in list order, object identities renu
 order, (owner, index, kind, target) of every effect, list positions of the returned objects, ok/error) are diffed.
 Oracle: the five clauses of the property evaluated on the real objects by identity (harness/trig_lib.py).
 """
-import itertools
+import itertools, json
 
 from harness import common
 from harness.trig_lib import Lib, Real, Runner, show_list
@@ -261,4 +261,103 @@ def run(ctx):
 
     rn.flush_violations()
     rn.compare()
+
+    # ---- persisted links: older scenario versions, file that already holds effects, operations, save, re-load --------
+    from harness import bases, vworker, codec_common as cc
+    vs = bases.versions()
+    pick = sorted({vs[0], vs[len(vs) // 2], vs[-2], vs[-1]} | ({rng.choice(vs)} if not ctx.quick else set()))
+    fixed = [c.get("replay", c) for c in ctx.corpus()]
+    fixed = [rp for rp in fixed if "hist" in rp and rp.get("version") in vs]
+    for rp in fixed:
+        per = vworker.run_versions("h_c06", "persist_worker", [rp["version"]],
+                                   {"seed": ctx.seed, "driver": ctx.driver_path, "rounds": 0, "fixed": [rp["hist"]]})
+        cc.merge_results(R, per, "C06")
+    per = vworker.run_versions("h_c06", "persist_worker", pick if ctx.quick else vs,
+                               {"seed": ctx.seed, "driver": ctx.driver_path, "rounds": ctx.budget(6, 40)})
+    cc.merge_results(R, per, "C06")
+    R.extra["persisted_versions"] = pick if ctx.quick else vs
     return R.to_json(exhaustive=True)
+
+
+class RealKeep(Real):
+    """a `Real` over the manager of a LOADED scenario: nothing is cleared"""
+    def reset(self):
+        self.ren, self.keep, self.dead, self.names = {}, [], {}, 1000
+
+
+def persisted_state(tm, lib):
+    def k(e):
+        et = e.effect_type
+        return "a" if et == lib.ACT else "d" if et == lib.DEACT else "o"
+    return {"names": [t.name for t in tm.triggers], "ids": [t.trigger_id for t in tm.triggers],
+            "order": list(tm.trigger_display_order),
+            "links": [[f"{k(e)}{e.trigger_id}" for e in t.effects if k(e) != "o"] for t in tm.triggers]}
+
+
+def persist_worker(version, args):
+    """the links as the file holds them: scenario of `version` → triggers with links → save → re-load (the loaded file now
+    holds effects) → structural operations → save → re-load; names, ids, display order and every (de)activation target
+    must be what the manager showed before the save"""
+    import os, random, shutil, tempfile
+    from harness import bases, codec_common as cc
+    lib = Lib.get()
+    from AoE2ScenarioParser.scenarios.aoe2_de_scenario import AoE2DEScenario
+    rng = random.Random(f"C06p:{args['seed']}:{version}")
+    R = common.Result(RULE); R.export_keys = True
+    tmp = tempfile.mkdtemp(prefix="c06p_")
+    try:
+        base = bases.base_file(version, args.get("driver"))
+        fixed = list(args.get("fixed") or [])
+        for rnd in range(len(fixed) + args["rounds"]):
+            with cc.quiet():
+                scn = AoE2DEScenario.from_file(base)
+            lib._deps = True
+            real = RealKeep(lib, scn.trigger_manager)
+            init, gen = random_history(rng, 5, rng.randrange(2, 7))
+            if init.split()[1] == "0":
+                init = "init 3 a1.d2|a0|o1.a0 2,0,1"
+            if rnd < len(fixed):
+                init, rest = fixed[rnd][0], fixed[rnd][1:]
+                gen = lambda n, i, rest=rest: rest[i] if i < len(rest) else None
+            hist = [init]
+            real.execute(init)
+            f1 = os.path.join(tmp, f"a{rnd}.aoe2scenario")
+            with cc.quiet():
+                st, _ = common.outcome(lambda: scn.write_to_file(f1))
+                if st != "ok":
+                    R.violation({"kind": "persist-save-failed", "stage": 1}, f"saving after {init!r} failed: {_}", {"version": version, "hist": hist})
+                    continue
+                scn = AoE2DEScenario.from_file(f1)
+            os.remove(f1)
+            real = RealKeep(lib, scn.trigger_manager)
+            i = 0
+            while True:
+                cmd = gen(len(real.tm.triggers), i)
+                if cmd is None:
+                    break
+                i += 1
+                body = cmd[2:] if cmd.startswith("q ") else cmd
+                real.execute(body)
+                hist.append(body)
+            want = persisted_state(scn.trigger_manager, lib)
+            f2 = os.path.join(tmp, f"b{rnd}.aoe2scenario")
+            with cc.quiet():
+                st, err = common.outcome(lambda: scn.write_to_file(f2))
+                got = None
+                if st == "ok":
+                    st, got = common.outcome(lambda: persisted_state(AoE2DEScenario.from_file(f2).trigger_manager, lib))
+            if os.path.exists(f2):
+                os.remove(f2)
+            nontrivial = any(want["links"]) and len(hist) > 1
+            R.case(json.dumps(["persist", version, hist]), nontrivial, tags=("persisted",))
+            if st != "ok":
+                R.violation({"kind": "persist-save-or-reload-failed"}, f"save/re-load after {hist} failed: {got if got else err}",
+                            {"version": version, "hist": hist})
+            elif got != want:
+                diff = [k for k in want if want[k] != got[k]]
+                R.violation({"kind": "persisted-links-differ", "what": diff[0]},
+                            f"version {version}: after {hist} the manager showed {want} but the written file holds {got}",
+                            {"version": version, "hist": hist})
+        return R.to_json()
+    finally:
+        shutil.rmtree(tmp, ignore_errors=True)
